@@ -740,7 +740,16 @@ pub fn c15_check(a_src: &str, b_src: &str) -> Option<Vec<String>> {
 pub const C15_ATOMS: &[&str] = &[
     "%let ", "%put ", "%if ", "%then ", "%do", "%end", "%macro ", "%mend", "%m", "(", ")", "=",
     ",", ";", " ", "\n", "a", "1", "&v", "'", "\"", "/*c*/", "*", "%*", "datalines", "x", "/",
-    "%", "+", "$", "%str(", "%%", "''",
+    "%", "+", "$", "%str(", "%%", "''", "\"\"",
+];
+
+/// one continuation per literal / payload-carrying scanner (each also after `x=`): what a closed
+/// prefix must not be able to influence
+pub const C15_LITERAL_B: &[&str] = &[
+    "\"41\"x", "'41'x", "\"4g\"x", "'4g'x", "\"a\"n", "'a b'n", "'01jan2020'd", "\"01jan2020\"d", "'a'dt", "\"a\"dt",
+    "'12:00't", "\"12:00\"t", "'1'b", "\"1\"b", "\"a\"\"b\"", "'a''b'", "\"&v\"", "\"&v\"\"a\"x", "\"%m()41\"x", "\"a&v.b\"d",
+    "1e5", "0ffx", "1.5", "1e", "$char8.", "8.2", "%str(a%%b)", "%nrstr(%(a)", "%let a=%str(%'x);", "é=\"é\"x",
+    "\"é\"", "'é'x", "\"", "'", "\"41\"x;\n\"42\"x",
 ];
 
 /// closed statements that leave accumulated state behind (non-empty literal buffer, several
@@ -760,6 +769,8 @@ pub const C15_STATEFUL_A: &[&str] = &[
     "%m(1);",
     "data a;\nrun;",
     "x='é€';",
+    "/*é*/",
+    "* é;",
     "x=1e;",
     "x=0ffz;",
     "%let a=%eval(1+);",
@@ -835,6 +846,11 @@ fn c15_run(cfg: &Config) -> PropRun {
             b_list.extend(next.iter().cloned());
             level = next;
         }
+    }
+    for l in C15_LITERAL_B {
+        b_list.push((*l).to_string());
+        b_list.push(format!("x={l};"));
+        b_list.push(format!("%put {l};"));
     }
     if !q {
         // S9 at N = 2 as continuations
